@@ -4,9 +4,27 @@ From Verif Require Import LBP LBP_base_proofs.
 Import ListNotations.
 Local Open Scope Z_scope.
 
-(* histories "as the cluster delivers them": populate, if any, is the first call the policy receives *)
+(* histories "as the cluster delivers them": populate hands over ALL hosts the cluster knows, so it never forgets a host
+   the policy was already told about: it is the first call (Cluster.connect, add_execution_profile), possibly repeated with the
+   same list (Cluster.connect populates the legacy policy once through the profile manager and once directly). *)
+Definition pop_ok (L : Z -> bool) (e : event) : Prop :=
+  match e with Populate hs _ _ => forall h, L h = true -> mem h hs = true | _ => True end.
+Fixpoint ok_from (L : Z -> bool) (evs : list event) : Prop :=
+  match evs with [] => True | e :: r => pop_ok L e /\ ok_from (mstep L e) r end.
+Definition delivered (evs : list event) : Prop := ok_from (fun _ => false) evs.
+
+(* the simplest shape: populate, if any, only as the first event *)
 Definition no_populate (evs : list event) : Prop := forallb (fun e => negb (is_populate e)) evs = true.
-Definition delivered (evs : list event) : Prop := no_populate (tl evs).
+Lemma no_populate_ok : forall evs L, no_populate evs -> ok_from L evs.
+Proof.
+  induction evs as [|e evs IH]; intros L H; simpl; auto.
+  unfold no_populate in H. simpl in H. apply andb_true_iff in H. destruct H as [H1 H2].
+  split; [destruct e; simpl in *; auto; discriminate|apply IH; exact H2].
+Qed.
+Lemma populate_first_delivered : forall evs, no_populate (tl evs) -> delivered evs.
+Proof.
+  intros [|e evs] H; unfold delivered; simpl; auto. split; [destruct e; simpl; auto; discriminate|apply no_populate_ok; exact H].
+Qed.
 
 (* ================================================================== RoundRobin / WhiteList *)
 Definition rr_inv (wl : option (list Z)) (s : rr_state) (L : Z -> bool) : Prop :=
@@ -267,19 +285,20 @@ Proof.
     + intros x. simpl. rewrite orb_assoc. reflexivity.
 Qed.
 
-Lemma dca_inv_populate : forall s hs ord r,
-  dca_inv s (fun _ => false) -> dca_inv (dca_step s (Populate hs ord r)) (fun h => mem h hs).
+Lemma dca_inv_populate : forall s L hs ord r,
+  dca_inv s L -> (forall h, L h = true -> mem h hs = true) -> dca_inv (dca_step s (Populate hs ord r)) (fun h => mem h hs).
 Proof.
-  intros s hs ord r H. unfold dca_inv in *. simpl.
+  intros s L hs ord r H HL. unfold dca_inv in *. simpl.
   eapply binv_ext.
   - apply binv_merge_all; [exact H|]. intros k g x Hin Hx.
     apply (groupby_keys (dca_dc s) hs k g x Hin Hx).
-  - intros x. simpl. apply groupby_members.
+  - intros x. simpl. rewrite groupby_members. destruct (L x) eqn:E; [rewrite (HL x E)|]; reflexivity.
 Qed.
 
-Lemma dca_inv_step : forall s L e, is_populate e = false -> dca_inv s L -> dca_inv (dca_step s e) (mstep L e).
+Lemma dca_inv_step : forall s L e, pop_ok L e -> dca_inv s L -> dca_inv (dca_step s e) (mstep L e).
 Proof.
-  intros s L e Hp H. destruct e; simpl in *; try discriminate.
+  intros s L e Hp H. destruct e; simpl in Hp.
+  - apply (dca_inv_populate s L); assumption.
   - apply dca_inv_up. exact H.
   - apply dca_inv_down. exact H.
   - apply dca_inv_up. exact H.
@@ -292,24 +311,19 @@ Proof.
   - exact H.
 Qed.
 
-Lemma dca_inv_run : forall evs s L, no_populate evs -> dca_inv s L ->
+Lemma dca_inv_run : forall evs s L, ok_from L evs -> dca_inv s L ->
   dca_inv (fold_left dca_step evs s) (fold_left mstep evs L).
 Proof.
   induction evs as [|e evs IH]; intros s L Hn H; simpl; auto.
-  unfold no_populate in Hn. simpl in Hn. apply andb_true_iff in Hn. destruct Hn as [H1 H2].
-  apply IH; [exact H2|]. apply dca_inv_step; [apply negb_true_iff; exact H1|exact H].
+  simpl in Hn. destruct Hn as [H1 H2].
+  apply IH; [exact H2|]. apply dca_inv_step; assumption.
 Qed.
 
 Lemma dca_inv_delivered : forall local used contact e evs, delivered evs ->
   dca_inv (fold_left dca_step evs (dca_init local used contact e)) (members evs).
 Proof.
   intros local used contact e evs Hd. unfold members.
-  assert (H0 : dca_inv (dca_init local used contact e) (fun _ => false)) by apply binv_init.
-  destruct evs as [|ev evs]; [exact H0|]. simpl. unfold delivered in Hd. simpl in Hd.
-  apply dca_inv_run; [exact Hd|].
-  destruct (is_populate ev) eqn:Ep.
-  - destruct ev; try discriminate. apply dca_inv_populate. exact H0.
-  - apply dca_inv_step; assumption.
+  apply dca_inv_run; [exact Hd|apply binv_init].
 Qed.
 
 (* ------------------------------------------------------------------ what the invariant says about plans *)
